@@ -20,7 +20,9 @@ Programs come from three sources
  2. dedicated families written in a small JSON-able statement language that
     is interpreted onto the real DSL (`SpecProg`): hash-map variables in
     every position, Dict update/lookup, ktime/prandom, subprograms, a stack
-    filled up to and beyond 512 bytes, packet-size guards;
+    filled up to and beyond 512 bytes, packet-size guards, XDP classes with
+    minimumPacketSize at its boundary values (0, 1, 13, 14, 15, 1500, 1514)
+    that end with an exit of their own or rely on defaultExitCode;
  3. the library's own programs: the `EtherXDP` dispatcher and `FastSyncGroup`
     programs over hand-faked terminals with every bundled device.
 
@@ -81,7 +83,12 @@ RULE = ("programs = (a) the program enumerations of the C01 C02 C03 C04 C06 "
         "structures x Else x modify-in-lookup x register context; "
         "ktime/prandom expressions x destinations x contexts; subprogram "
         "classes x instances x bodies; locals filling the stack to 480..520 "
-        "bytes; packet-size guards x accesses, (c) EtherXDP and FastSyncGroup "
+        "bytes; packet-size guards x accesses; minimumPacketSize in {0, 1, "
+        "13, 14, 15, 1500, 1514} x every XDPExitCode as defaultExitCode x "
+        "program ending (relies on defaultExitCode / own exit / own exit "
+        "with another code / exit in a branch) x bodies without packet "
+        "access and with array and packet-variable accesses at the first "
+        "and last bytes the guard promises, (c) EtherXDP and FastSyncGroup "
         "x bundled devices x terminal variable kinds x FMMU/direct layout x "
         "1-3 devices; each accepted program is loaded once into the real "
         "kernel; a case is non-trivial when the generator accepted the "
@@ -922,7 +929,17 @@ understood("c03", "work", ("item", "res"))
 
 
 def _b_c03(s, w):
-    return _c03_Prog(c03.stmts_from_json(core.jsonable(s["stmts"]))).b._code
+    # programs with an array-map variable create their map through the
+    # harness' FakeMaps class: here it has to be a real kernel map
+    old = getattr(c03, "FakeMaps", None)
+    if old is not None:
+        c03.FakeMaps = RealFake
+    try:
+        return _c03_Prog(
+            c03.stmts_from_json(core.jsonable(s["stmts"]))).b._code
+    finally:
+        if old is not None:
+            c03.FakeMaps = old
 
 
 def _bittest(tree):
@@ -970,6 +987,8 @@ def _c03_subs(stmts, family):
         subs.append("chain")
     if "('x'," in r:
         subs.append("exit")
+    if "('arr'," in r:
+        subs.append("array-map-variable")
     return subs
 
 
@@ -1089,6 +1108,8 @@ def _c06_item(prog, res):
         subs.append("zero-amount")
     if len(stmts) > 1:
         subs.append("two-statements")
+    if any(st[1] in getattr(c06, "UNIT_FORMS", ()) for st in stmts):
+        subs.append("mixed-units")
     shape = dict(prog=prog)
     offer(res, "c06", "c06", prog, shape, subs,
           triggers=lambda: _c06_triggers(shape))
@@ -1402,9 +1423,10 @@ REUSE = {
 EXPECTED = {
     "c01": ("idx", "prefixed"),
     "c02": ("prefixed",),
-    "c03": ("atom", "tree", "shtree", "block", "bf", "chain", "exit"),
+    "c03": ("atom", "tree", "shtree", "block", "bf", "chain", "exit",
+            "endian", "array-map-variable"),
     "c04": ("lookup-block", "history"),
-    "c06": ("zero-amount", "two-statements"),
+    "c06": ("zero-amount", "two-statements", "mixed-units"),
     "c07": ("single-access", "prefixed-local", "guards"),
     "c08": ("one-map", "per-cpu", "two-maps", "prefixed"),
     "c09": ("hash-map-variables", "dict", "prefixed"),
@@ -1490,7 +1512,11 @@ def _fmt(f):
 class SpecProg:
     """one program of the statement language.
 
-    spec: dict(xdp, min, loc, hv, av, pv, dict, dorder, subs, regs, body)
+    spec: dict(xdp, min, dexit, tail, loc, hv, av, pv, dict, dorder, subs,
+               regs, body)
+      min   minimumPacketSize (None: no guard)  dexit  defaultExitCode value
+      tail  False: the program does NOT end with an exit of its own but
+            relies on `defaultExitCode` (only with a minimumPacketSize)
       loc   formats of LocalVars l0..          hv  formats of hash vars h0..
       av    formats of array-map vars a0..     pv  [offset, format] p0..
       dict  [key formats, value formats]       dorder 'first' | 'last'
@@ -1517,6 +1543,11 @@ class SpecProg:
         xdp = s.get("xdp", True)
         if s.get("min") is not None:
             attrs["minimumPacketSize"] = s["min"]
+        if s.get("dexit") is not None:
+            attrs["defaultExitCode"] = XDPExitCode(s["dexit"])
+        if not s.get("tail", True) and (s.get("min") is None or not xdp):
+            raise core.Internal("C05: a program without a minimumPacketSize "
+                                "has to end with an exit of its own")
 
         def add_dict():
             if s.get("dict"):
@@ -1610,7 +1641,8 @@ class SpecProg:
         for n, v in sorted((int(k), v) for k, v in s.get("regs", {}).items()):
             e.r[n] = v
         self.emit(s["body"])
-        e.exit(XDPExitCode.PASS)
+        if s.get("tail", True):
+            e.exit(XDPExitCode.PASS)
 
     def run_sub(self, inst):
         k = self.subs.index(inst)
@@ -2258,6 +2290,67 @@ def fam_pkt(ctx):
     return out
 
 
+# ---- boundary values of minimumPacketSize, own exit / defaultExitCode
+MIN_SIZES = (0, 1, 13, 14, 15, 1500, 1514)
+
+
+def fam_minsz(ctx):
+    """XDP subclasses with minimumPacketSize at its boundaries (0 = 'any
+    non-empty packet': guard packetSize > 0) x every defaultExitCode x the
+    way the program ends: 'default' relies on defaultExitCode (falls out of
+    the guarded block), 'own' ends with exit(PASS), 'code' with exit(another
+    code), 'branch' exits in a branch and otherwise relies on the default;
+    x bodies without and with packet accesses (arrays of the guard, a packet
+    variable) at the first and at the last bytes the guard promises"""
+    codes = [c.value for c in XDPExitCode]
+    sz = {"B": 1, "H": 2, "I": 4, "Q": 8}
+    out = []
+    n = 0
+    for m in MIN_SIZES:
+        bodies = [[], [["iadd", A(0), C(1)]], [["set", L(1), C(5)]],
+                  [["if", CMP(">", A(0), C(3)), [["set", A(0), C(0)]],
+                    [["set", L(1), A(0)]]]]]
+        for f in "BHIQ":
+            if sz[f] > m:
+                continue
+            for off in sorted({0, m - sz[f]}):
+                ea = ["ea", f, off]
+                bodies.append([["set", L(2), ea]])
+                bodies.append([["set", ea, C(5)]])
+                if not ctx.quick or off:
+                    bodies.append([["if", CMP("==", ea, C(0x88)),
+                                    [["set", ea, L(1)]], None],
+                                   ["iadd", A(0), C(1)]])
+        pv = []
+        if m >= 2:
+            pv = [[m - 2, ">H"]]
+            bodies.append([["set", L(1), P(0)]])
+            bodies.append([["if", CMP("!=", P(0), C(0x88a4)),
+                            [["set", P(0), C(0x88a4)]], None]])
+        for bi, body in enumerate(bodies):
+            for end in ("default", "own", "code", "branch"):
+                for dexit in codes:
+                    n += 1
+                    if ctx.quick and end != "default" and \
+                            (n + ctx.seed) % 3:
+                        continue
+                    other = codes[(codes.index(dexit) + 1 + bi) % len(codes)]
+                    if end == "default":
+                        b, tail = body, False
+                    elif end == "own":
+                        b, tail = body, True
+                    elif end == "code":
+                        b, tail = body + [["exit", other]], False
+                    else:
+                        b, tail = body + [
+                            ["if", CMP(">", L(1), C(bi)),
+                             [["exit", other]], None]], False
+                    out.append(dict(xdp=True, min=m, dexit=dexit, tail=tail,
+                                    loc=["B", "I", "Q"], av=["I"], pv=pv,
+                                    body=b))
+    return out
+
+
 # ---- helper calls inside a Dict lookup block, before the value is used
 def fam_look(ctx):
     """the looked-up value is addressed through r0: every helper call the
@@ -2337,6 +2430,7 @@ SPEC_FAMILIES = {
     "stack": (fam_stack, spec_triggers),
     "pkt": (fam_pkt, spec_triggers),
     "look": (fam_look, spec_triggers),
+    "minsz": (fam_minsz, spec_triggers),
 }
 
 
@@ -2520,7 +2614,7 @@ BUILDERS = {
     "c01": _b_c01, "c02": _b_c02, "c03": _b_c03, "c04": _b_c04,
     "c06": _b_c06, "c07": _b_c07, "c08": _b_c08, "c09": _b_c09,
     "hash": _b_spec, "dict": _b_spec, "time": _b_spec, "sub": _b_spec,
-    "stack": _b_spec, "pkt": _b_spec, "look": _b_spec,
+    "stack": _b_spec, "pkt": _b_spec, "look": _b_spec, "minsz": _b_spec,
     "group": _b_group, "dispatcher": _b_dispatcher,
 }
 
@@ -2627,6 +2721,12 @@ def run(ctx):
         "'packet access inside a packet-size guard': offset + size <= n for "
         "`packetSize > n`, `>= n` and minimumPacketSize = n (body) and for "
         "the Else part of `< n`, `<= n`",
+        "minimumPacketSize = 0 is a legal declaration ('any non-empty "
+        "packet', guard packetSize > 0, no byte may be accessed); an XDP "
+        "class that declares a minimumPacketSize may leave the return value "
+        "to defaultExitCode (its program() need not end with exit()), a "
+        "class without one has to exit itself (the family 'minsz' never "
+        "builds that combination)",
         "programs with several packet-size guards (C07's family): every "
         "guard reloads the packet pointer, and the verifier then only knows "
         "what THAT guard's comparison established; an access that relies on "
